@@ -26,7 +26,7 @@ def sh(cmd, **kw):
 def main():
     prop, i = sys.argv[1], sys.argv[2]
     checks = [prop] + sys.argv[3:]
-    src = f"/tmp/seed_out/{prop}"
+    src = os.path.join(os.environ.get("VET_SRC", "/tmp/seed_out"), prop)
     patch, demo, meta = (os.path.join(src, f"{n}{i}.{e}") for n, e in
                          (("patch", "diff"), ("demo", "py"), ("meta", "json")))
     for f in (patch, demo):
@@ -72,7 +72,7 @@ def main():
                          f"(rc {rec['demo_with_change']['rc']})",
                          "selftest/run_mutants.py <patch> " + ",".join(checks) + " --tier quick"]
     if ok:
-        out = os.path.join(HERE, "seeded", f"{prop}-{i}")
+        out = os.path.join(HERE, "seeded", f"{prop}-{int(i) + int(os.environ.get('VET_OFFSET', '0'))}")
         os.makedirs(out, exist_ok=True)
         shutil.copy(patch, os.path.join(out, "patch.diff"))
         shutil.copy(demo, os.path.join(out, "demo.py"))
